@@ -197,6 +197,20 @@ func DominatingFacts(b *ssa.BasicBlock) []Fact {
 	return out
 }
 
+// EdgeFacts: what is known when control passes from pred to succ: the facts dominating pred plus the outcome of
+// pred's own branch.
+func EdgeFacts(pred, succ *ssa.BasicBlock) []Fact {
+	out := DominatingFacts(pred)
+	if iff, ok := pred.Instrs[len(pred.Instrs)-1].(*ssa.If); ok && pred.Succs[0] != pred.Succs[1] {
+		if pred.Succs[0] == succ {
+			out = addFact(out, iff.Cond, true)
+		} else if pred.Succs[1] == succ {
+			out = addFact(out, iff.Cond, false)
+		}
+	}
+	return out
+}
+
 // addFact records that cond has the value val, and what that says about x when cond is `!x`.
 func addFact(out []Fact, cond ssa.Value, val bool) []Fact {
 	out = append(out, Fact{cond, val})
